@@ -30,7 +30,7 @@ def strip_ws(s):
     return re.sub(r'\s+', '', s)
 
 
-QUERIES = [
+BASE_QUERIES = [
     'A[] v0 < 3', 'E<> v0 == 1 && v1 != 2', 'A<> b0', 'E[] not b0', 'v0 == 1 --> v1 == 2', 'A[] not deadlock',
     'sup: v0', 'sup{v0 > 0}: v1, v2', 'inf: x0', 'inf{b0}: v0', 'bounds: v0', 'bounds{b0}: v1',
     'E<> P.A', 'A[] P.A imply v0 >= 0', 'A[] forall (i : int[0,2]) arr[i] >= 0', 'E<> exists (i : int[0,2]) arr[i] == 1',
@@ -47,8 +47,43 @@ QUERIES = [
 ]
 
 
+def double_queries(rng, n):
+    """queries around floating-point constants: the property asks for every bit of them to survive print / re-parse.  Literals whose
+    shortest exact spelling needs 15, 16 and 17 significant digits, the extremes of the format, and bounds the builder rewrites
+    (Pr[...] <= p keeps 1 - p)"""
+    import struct
+    lits = ['0.30000000000000004', '0.1', '0.95', '0.09999999999999998', '0.3333333333333333', '0.6666666666666666', '1.7976931348623157e+308', '2.2250738585072014e-308', '5e-324',
+            '1e+22', '1.2345678901234568e+17', '0.7999999999999999', '4.35', '2.675', '1.0000000000000002', '9007199254740993.0', '0.05000000000000005']
+    while len(lits) < n:
+        bits = rng.getrandbits(64) & 0x7fffffffffffffff
+        v = struct.unpack('<d', struct.pack('<Q', bits))[0]
+        if v != v or v in (float('inf'),):
+            continue
+        if rng.random() < 0.6:
+            v = rng.choice([rng.random(), rng.random() * 10 ** rng.randrange(-8, 9), rng.randrange(1, 1000) / rng.randrange(1, 1000)])
+        r = repr(v)
+        if 'e' not in r and '.' not in r:
+            r += '.0'
+        lits.append(r)
+    out = []
+    for i, l in enumerate(lits):
+        form = i % 5
+        try:
+            p = float(l)
+        except ValueError:
+            continue
+        if form == 0: out.append('Pr[<=10](<> d0 < %s)' % l)
+        elif form == 1: out.append('Pr[<=10]([] d0 > %s)' % l)
+        elif form == 2 and 0 < p < 1: out.append('Pr[<=10](<> x0 > 3) <= %s' % l)
+        elif form == 3 and 0 < p < 1: out.append('Pr[<=10]([] b0) >= %s' % l)
+        else: out.append('E[<=10; 100](max: d0 + %s)' % l)
+    return out
+
+
 def check(run):
     thorough = run.tier == 'thorough'
+    global QUERIES
+    QUERIES = BASE_QUERIES + double_queries(run.rng, 400 if thorough else 120)
     T = None
     try:
         T = exprgen.Table()
